@@ -132,11 +132,11 @@ def run(opts):
             distinct.add(json.dumps([s["fmt"], [o for o in s["ops"] if o[0] != "crash"]]))
     chk.evaluations = total_events
     chk.distinct = len([d for d in distinct if d.count('"open"') >= 2])
-    chk.rule = ("write histories: every sequence of %s write sessions over report steps 0..3 x payloads x "
+    chk.rule = ("write histories: %s write sessions over report steps 0..3 x payloads x "
                 "{formatted, unformatted} enumerated by TLC, plus seeded random histories (<= 12 sessions, "
                 "array lengths around block boundaries); crash = every byte offset of the resulting "
                 "unformatted file; non-trivial = distinct history with at least two sessions; "
-                "evaluations = trace events validated by TLC" % chk.pick("4", "5"))
+                "evaluations = trace events validated by TLC" % chk.pick("every sequence of 4", "a seeded sample of 20000 of the sequences of 5"))
     for s in scripts[:2] + scripts[-2:]:
         chk.sample({"fmt": s["fmt"], "ops": s["ops"][:14], "src": s.get("src")})
     chk.assumptions = ["the independent scanner harness/eclscan.hpp decodes the bytes correctly",
